@@ -384,6 +384,8 @@ def main():
     rnd = random.Random(seed)
     n_valid = 150 if chk.tier == 'quick' else 3000
     counts = {'valid': 0, 'mutants': 0, 'random': 0, 'deep': 0}
+    distinct = set()
+    samples = []
     failures = []
 
     def fail(kind, text, detail):
@@ -394,6 +396,9 @@ def main():
         text = render(sp)
         out, detail = run_one(ms, text)
         counts['valid'] += 1
+        distinct.add(hashlib.sha256(text.encode()).hexdigest())
+        if i < 2:
+            samples.append({'kind': 'generated valid schema', 'outcome': out, 'text': text})
         if out != 'schema':
             fail('generated valid schema not accepted cleanly: ' + out, text, detail)
             continue
@@ -404,6 +409,9 @@ def main():
             t2 = render(m)
             out, detail = run_one(ms, t2)
             counts['mutants'] += 1
+            distinct.add(hashlib.sha256(t2.encode()).hexdigest())
+            if i == 0 and len(samples) < 5:
+                samples.append({'kind': 'mutation ' + kind, 'outcome': out, 'detail': detail[:120], 'text': t2})
             if out == 'schema':
                 fail('rule-breaking mutation accepted: ' + kind, t2, 'parse_string returned a schema')
             elif out != 'schema_error':
@@ -417,6 +425,8 @@ def main():
             text = ' '.join(base)
         out, detail = run_one(ms, text)
         counts['random'] += 1
+        if i == 0:
+            samples.append({'kind': 'random token stream', 'outcome': out, 'detail': detail[:120], 'text': text[:300]})
         if out not in ('schema', 'schema_error'):
             fail('token stream: ' + out, text, detail)
     for depth in ((50, 1200) if chk.tier == 'quick' else (50, 1200, 3000)):      # deep use chains and long cycles
@@ -430,9 +440,10 @@ def main():
     ok = not failures
     chk.external('bounded/contract_holds_on_every_explored_text', ok, 'bounded exploration (contract as oracle)', detail=str(failures[:2])[:600],
                  model={'failures': failures} if failures else None)
-    chk.extra_cov.update({'evaluations': total, 'distinct_nontrivial': counts['valid'] + counts['mutants'],
+    chk.extra_cov.update({'evaluations': total, 'distinct_nontrivial': len(distinct), 'samples': samples,
                           'rule': 'generated valid schemas must parse to a schema satisfying the independent rule re-check; each of %d rule-breaking mutations must raise SchemaError; '
-                                  'random token streams and deep use chains must return a schema or raise SchemaError with a line inside the text' % len(MUTATIONS),
+                                  'random token streams and deep use chains must return a schema or raise SchemaError with a line inside the text; '
+                                  'distinct_nontrivial counts distinct texts (sha256) among the generated valid schemas and their rule-breaking mutants' % len(MUTATIONS),
                           'explored': counts, 'seed': seed})
     chk.bounded.append({'what': 'parse_string under its contract', 'bound': '%d generated schemas x %d mutations, %d token streams, use chains up to depth 1200 (quick) / 3000 (thorough); seed %d' % (n_valid, len(MUTATIONS), n_valid * 3, seed),
                         'result': 'ok' if ok else failures[:2], 'counted_as_proved': False})
